@@ -115,6 +115,7 @@ def network_simplex(
     state = [1] * m + [0] * n
 
     iterations = 0
+    status = Status.MAX_ITER  # until the loop proves optimality
 
     while iterations < max_iter:
         iterations += 1
@@ -137,7 +138,8 @@ def network_simplex(
                 entering = arc
 
         if entering == -1:
-            break  # Optimal: no improving arc found
+            status = Status.OPTIMAL  # no improving arc found
+            break
 
         u, v = source[entering], target[entering]
         rc = cost[entering] - pi[u] + pi[v]
@@ -241,9 +243,12 @@ def network_simplex(
                     pred[child] = child_arc
                     stack.append(child)
 
+    # Flow left on an artificial arc: infeasible if the basis is optimal, otherwise we just ran out of iterations
     for arc in range(m, total_arcs):
         if flow[arc] > 0:
-            return Result(None, float("inf"), iterations, total_arcs, Status.INFEASIBLE)
+            if status == Status.OPTIMAL:
+                status = Status.INFEASIBLE
+            return Result(None, float("inf"), iterations, total_arcs, status)
 
     total_cost = sum(flow[i] * cost[i] for i in range(m))
     # Parallel arcs share one (from, to) key: report their combined flow
@@ -253,7 +258,7 @@ def network_simplex(
             key = (source[i], target[i])
             flow_dict[key] = flow_dict.get(key, 0) + flow[i]
 
-    return Result(flow_dict, total_cost, iterations, total_arcs)
+    return Result(flow_dict, total_cost, iterations, total_arcs, status)
 
 
 def _find_join(u, v, depth, parent):
